@@ -2,9 +2,10 @@
 C05 — segment analysis verdicts are true of the real machine.
 Property theorems only; helper lemmas live in BB/Lemmas/SegSound*.lean.
 (The definitions `Span.unroll`, `Config.toCfg`, `ExactAt`, `InitExact`, `paramsCover` used by the
-statements live at the top of BB/Lemmas/SegSound1.lean; `CfgOK`, `TodoOK` in SegSound5.lean.)
+statements live at the top of BB/Lemmas/SegSound1.lean; `CfgOK`, `TodoOK` in SegSound5.lean;
+`RefutedClaim` in SegSound22.lean.)
 -/
-import BB.Lemmas.SegSound6
+import BB.Lemmas.SegSound22
 
 namespace BB.Segment
 
@@ -72,6 +73,76 @@ set_option maxRecDepth 100000 in
 example : segCantBlank progBlank (2, 2) 2 = .ok .blank := by decide
 set_option maxRecDepth 100000 in
 example : segCantSpinOut progRepeat (2, 2) 2 = .ok .repeat := by decide
+
+/-! ### Soundness of `refuted`
+
+Hypothesis `paramsCover prog params` (decidable, BB/Lemmas/SegSound1.lean): `params` has at least
+state 0 and colour 0, and every state / colour occurring in a key *or inside an instruction* of
+the program is below `params`.  No bound on `segs`; the program is any association list. -/
+
+/-- **seg_refuted_sound (halt).** If the segment analysis with explicit, covering `params` answers
+    `refuted` for the goal halt, the real machine never reaches an undefined instruction. -/
+theorem seg_refuted_sound_halt (prog : Prog) (params : Nat × Nat) (segs k : Nat)
+    (hpc : paramsCover prog params = true)
+    (h : segCantHalt prog params segs = .ok (.refuted k)) : ¬ Halts prog.toF :=
+  seg_refuted_halt' prog params segs k hpc h
+
+/-- **seg_refuted_sound (spin-out).** If the analysis with covering `params` answers `refuted` for
+    the goal spin-out, the real machine never reaches a spin-out configuration. -/
+theorem seg_refuted_sound_spinout (prog : Prog) (params : Nat × Nat) (segs k : Nat)
+    (hpc : paramsCover prog params = true)
+    (h : segCantSpinOut prog params segs = .ok (.refuted k)) : ¬ SpinsOut prog.toF :=
+  seg_refuted_spinout' prog params segs k hpc h
+
+/-- **seg_blank_never_refuted.** For the goal blank the analysis *never* answers `refuted` — for
+    any program, any `params`, any limit.  (The initial positions are tried in order; position
+    `seg - 1` can only enter `blanks[0]` when it is tried itself, and at that moment all `seg`
+    positions are in the union of the `blanks` sets, so `check_reached_blank` answers `reached`
+    and the next segment size is tried, until a positive verdict or a limit.)  So a refutation of
+    "blank" by this analysis is vacuously sound, and the analysis cannot refute blanking. -/
+theorem seg_blank_never_refuted (prog : Prog) (params : Nat × Nat) (segs k : Nat) :
+    segCantBlank prog params segs ≠ .ok (.refuted k) :=
+  seg_blank_never_refuted' prog params segs k
+
+/-- **seg_refuted_sound (blank).** Held to the erase event as the design requires; true because the
+    hypothesis never holds (`seg_blank_never_refuted`), hence no `example` for it. -/
+theorem seg_refuted_sound_blank (prog : Prog) (params : Nat × Nat) (segs k : Nat)
+    (h : segCantBlank prog params segs = .ok (.refuted k)) : ¬ ∃ n, ErasesAt prog.toF n :=
+  absurd h (seg_blank_never_refuted' prog params segs k)
+
+/-- **seg_refuted_sound**, all goals at once: `RefutedClaim p goal` is `¬ Halts p`,
+    `¬ ∃ n, ErasesAt p n`, `¬ SpinsOut p` for the goals halt, blank, spin-out. -/
+theorem seg_refuted_sound (prog : Prog) (params : Nat × Nat) (segs k : Nat) (goal : Term)
+    (hpc : paramsCover prog params = true)
+    (h : segmentCantReach prog params segs goal = .ok (.refuted k)) :
+    RefutedClaim prog.toF goal :=
+  seg_refuted_sound' prog params segs k goal hpc h
+
+/-- **The repaired wrapper is sound.** With `fixF2 = true` the string wrapper's parameters cover the
+    program (`paramsCover_fix`), so its `refuted` needs no hypothesis at all. -/
+theorem py_segment_fixed_sound (prog : Prog) (segs k : Nat) (goal : Term)
+    (h : pySegmentCantReach prog segs goal true = .ok (.refuted k)) :
+    RefutedClaim prog.toF goal :=
+  py_segment_fixed_sound' prog segs k goal h
+
+/-- `0LB ...  1LA 0RB`: the halting slot `A1` is never reached -/
+def progNoHalt : Prog := [((0,0),(0,false,1)), ((1,0),(1,false,0)), ((1,1),(0,true,1))]
+/-- `1LB 0LA  1RB 1LB` -/
+def progNoSpin : Prog :=
+  [((0,0),(1,false,1)), ((0,1),(0,false,0)), ((1,0),(1,true,1)), ((1,1),(1,false,1))]
+
+set_option maxRecDepth 100000 in
+example : paramsCover progNoHalt (2, 2) = true ∧
+    segCantHalt progNoHalt (2, 2) 3 = .ok (.refuted 2) := by decide
+set_option maxRecDepth 100000 in
+example : paramsCover progNoSpin (2, 2) = true ∧
+    segCantSpinOut progNoSpin (2, 2) 3 = .ok (.refuted 3) := by decide
+
+/-- why `paramsCover` asks for at least one state and one colour: with the empty table size the
+    analysis finds no halting slot although the (empty) program halts at once -/
+theorem seg_refuted_needs_positive_params :
+    segCantHalt [] (0, 0) 2 = .ok (.refuted 0) ∧ HaltsAt (Prog.toF []) 0 0 0 :=
+  ⟨by decide, ⟨Cfg.init, rfl, rfl, rfl, rfl⟩⟩
 
 /-! ### Witness for finding F2: the string wrapper's table size -/
 
